@@ -286,31 +286,36 @@ def exV1 (exp nbf : Nat) : ParsedToken where
 
 /-- the hypotheses of `accept_iff_spec` are satisfiable and both sides can be true: valid tokens of both
 versions are accepted, at the very edge of the window (`exp = now − leeway`, `nbf = now + leeway`) -/
-example : accept generatedValidation exKeys (exV0 1700000000) 1700000060 = true := by decide +kernel
-example : accept generatedValidation exKeys (exV1 1700003600 1700000060) 1700000000 = true := by decide +kernel
-example : Spec leeway exKeys (exV1 1700003600 1700000060) 1700000000 :=
+example : accept generatedValidation exKeys (exV0 1700000000) (1700000000 + leeway) = true := by decide +kernel
+example : accept generatedValidation exKeys (exV1 1700003600 (1700000000 + leeway)) 1700000000 = true := by
+  decide +kernel
+example : Spec leeway exKeys (exV1 1700003600 (1700000000 + leeway)) 1700000000 :=
   (accept_iff_spec exKeys _ 1700000000 (by decide) (by decide)).mp (by decide +kernel)
 /-- … and one second outside the window they are refused -/
-example : accept generatedValidation exKeys (exV0 1700000000) 1700000061 = false := by decide +kernel
-example : accept generatedValidation exKeys (exV1 1700003600 1700000061) 1700000000 = false := by decide +kernel
+example : accept generatedValidation exKeys (exV0 1700000000) (1700000000 + leeway + 1) = false := by
+  decide +kernel
+example : accept generatedValidation exKeys (exV1 1700003600 (1700000000 + leeway + 1)) 1700000000 = false := by
+  decide +kernel
 /-- the granted lifetime of an accepted token: `exp − now` -/
 example : lifetime 1700003600 1700000000500000000 = .granted 3599500000000 := by decide +kernel
 
 /-- **What was wrong before the fix** (jsonwebtoken leaves `validate_nbf` off by default): with
 `validateNbf := false` – the configuration `build_validation()` used to produce – a v1 token whose
-not-before time lies an hour in the future is accepted, contradicting `NotBeforeOk`.  Reproduced on the
-real code by `hx_token` (`probe nbf=now+3600`) before commit `fix: SNAP token verifier must enforce the
-not-before claim`; on the fixed tree `immature_rejected` holds instead. -/
+not-before time lies beyond `now + leeway` (e.g. an hour in the future) is accepted, contradicting
+`NotBeforeOk`.  Reproduced on the real code by `hx_token` (`probe nbf=now+3600`) before commit
+`fix: SNAP token verifier must enforce the not-before claim`; on the fixed tree `immature_rejected`
+holds instead. -/
 theorem nbf_unchecked_witness :
-    accept { generatedValidation with validateNbf := false } exKeys (exV1 1700007200 1700003600) 1700000000 = true ∧
-    ¬ Spec leeway exKeys (exV1 1700007200 1700003600) 1700000000 := by
+    accept { generatedValidation with validateNbf := false } exKeys
+        (exV1 (1700007200 + leeway) (1700000000 + leeway + 1)) 1700000000 = true ∧
+    ¬ Spec leeway exKeys (exV1 (1700007200 + leeway) (1700000000 + leeway + 1)) 1700000000 := by
   refine ⟨by decide +kernel, ?_⟩
   rintro ⟨_, _, ⟨cs, hp, _, _, _, hnbf, _⟩⟩
   simp only [exV1, Payload.obj.injEq] at hp
   subst hp
-  obtain ⟨n, hn, hle⟩ := hnbf (.num (.u64 1700003600)) (by decide)
+  obtain ⟨n, hn, hle⟩ := hnbf (.num (.u64 (1700000000 + leeway + 1))) (by decide +kernel)
   simp only [timeValue, Option.some.injEq] at hn
   subst hn
-  simp [leeway] at hle
+  omega
 
 end ScionVerif.Token
